@@ -1,8 +1,26 @@
 #!/bin/bash
-# Offline setup after a fresh restore: pre-builds every harness variant (warms the Go build cache).
-set -eu
+# Offline setup after a fresh restore: builds vgen and pre-builds every harness variant named by
+# MANIFEST.json (warms the Go build cache so that the per-check rebuild is incremental).
+set -u
 cd "$(dirname "$0")"
 . ./env.sh
 mkdir -p .build/bin .build/tmp evidence replays
-for v in free; do ./build.sh $v; done
-echo setup done
+(cd tools/vgen && go build -o "$VERIF_ROOT/.build/bin/vgen" .) || { echo "vgen build failed"; exit 1; }
+rc=0
+for v in $(python3 - <<'PY'
+import json, subprocess
+m = json.load(open('/verif/MANIFEST.json'))
+vs = []
+for c in m['checks']:
+    v = subprocess.run(['python3', '/verif/tools/variant_of.py', c['property_id']], capture_output=True, text=True).stdout.strip()
+    if v and v not in vs:
+        vs.append(v)
+print(' '.join(vs))
+PY
+); do
+  echo "building variant $v"
+  ./build.sh "$v" || { echo "variant $v failed to build"; rc=1; }
+done
+rm -rf .build/tmp/*
+echo "setup done rc=$rc"
+exit $rc
